@@ -90,28 +90,46 @@ func (s asciiString) utf16() []uint16 {
 	return u
 }
 
+// nonDecimalBase returns the radix of a 0x/0o/0b prefixed string that has at least one more character, or 0.
+func nonDecimalBase(ss string) int {
+	if len(ss) > 2 && ss[0] == '0' {
+		switch ss[1] {
+		case 'x', 'X':
+			return 16
+		case 'o', 'O':
+			return 8
+		case 'b', 'B':
+			return 2
+		}
+	}
+	return 0
+}
+
+// digitsToFloat returns the float64 nearest to the unsigned integer written as digits in the given base
+// (one rounding of the exact value, ties to even).
+func digitsToFloat(digits string, base int) (float64, bool) {
+	if digits == "" || digits[0] == '-' || digits[0] == '+' {
+		return 0, false
+	}
+	n, ok := new(big.Int).SetString(digits, base)
+	if !ok {
+		return 0, false
+	}
+	f, _ := new(big.Float).SetInt(n).Float64()
+	return f, true
+}
+
 // ss must be trimmed
 func stringToInt(ss string) (int64, error) {
 	if ss == "" {
 		return 0, nil
 	}
-	if len(ss) > 2 {
-		base := 0
-		switch ss[:2] {
-		case "0x", "0X":
-			base = 16
-		case "0b", "0B":
-			base = 2
-		case "0o", "0O":
-			base = 8
+	if base := nonDecimalBase(ss); base != 0 {
+		if ss[2] == '-' || ss[2] == '+' {
+			// strconv.ParseInt would accept a sign here
+			return 0, &strconv.NumError{Func: "ParseInt", Num: ss, Err: strconv.ErrSyntax}
 		}
-		if base != 0 {
-			if ss[2] == '-' || ss[2] == '+' {
-				// strconv.ParseInt would accept a sign here
-				return 0, &strconv.NumError{Func: "ParseInt", Num: ss, Err: strconv.ErrSyntax}
-			}
-			return strconv.ParseInt(ss[2:], base, 64)
-		}
+		return strconv.ParseInt(ss[2:], base, 64)
 	}
 	i, err := strconv.ParseInt(ss, 10, 64)
 	if i == 0 && err == nil && ss[0] == '-' {
@@ -143,6 +161,14 @@ func (s asciiString) _toFloat(trimmed string) (float64, error) {
 
 	// Go allows underscores in numbers, when parsed as floats, but ECMAScript expect them to be interpreted as NaN.
 	if strings.ContainsRune(trimmed, '_') {
+		return 0, strconv.ErrSyntax
+	}
+
+	if base := nonDecimalBase(trimmed); base != 0 {
+		// a NonDecimalIntegerLiteral, possibly beyond the int64 range of stringToInt
+		if f, ok := digitsToFloat(trimmed[2:], base); ok {
+			return f, nil
+		}
 		return 0, strconv.ErrSyntax
 	}
 
